@@ -46,7 +46,10 @@ pub struct Gen {
     pub small_buf_pct: u64,
 }
 
-pub fn family_cfg(family: &str, seed: u64, big: bool) -> Cfg {
+pub fn family_cfg(family_name: &str, seed: u64, big: bool) -> Cfg {
+    // "crash-subsector" is the crash family on a disk that also tears inside sectors.
+    let subsector = family_name == "crash-subsector";
+    let family = if subsector { "crash" } else { family_name };
     let mut r = Rng::derive(seed, "cfg");
     let (n_lo, n_hi) = match family {
         "facts" => (1, 2),
@@ -75,7 +78,7 @@ pub fn family_cfg(family: &str, seed: u64, big: bool) -> Cfg {
     };
     Cfg {
         seed,
-        family: family.to_string(),
+        family: family_name.to_string(),
         n_reps,
         file_backed,
         faults,
@@ -85,9 +88,9 @@ pub fn family_cfg(family: &str, seed: u64, big: bool) -> Cfg {
         max_commands: if big { 400 } else { 120 },
         lookup_every: 6,
         fs: if family == "crash" && r.chance(1, 2) {
-            crate::sim::FsCfg { eintr_pct: r.range(0, 10), short_pct: r.range(0, 15), eio_permille: if r.chance(1, 3) { r.range(1, 15) } else { 0 }, enospc_permille: if r.chance(1, 4) { r.range(1, 30) } else { 0 } }
+            crate::sim::FsCfg { eintr_pct: r.range(0, 10), short_pct: r.range(0, 15), eio_permille: if r.chance(1, 3) { r.range(1, 15) } else { 0 }, enospc_permille: if r.chance(1, 4) { r.range(1, 30) } else { 0 }, subsector }
         } else {
-            crate::sim::FsCfg::default()
+            crate::sim::FsCfg { subsector, ..Default::default() }
         },
         max_steps,
     }
@@ -103,7 +106,8 @@ impl Gen {
         let mut fault_pct = 0;
         let mut corrupt_pct = 0;
         let mut max_cmds = r.range(1, 4);
-        match cfg.family.as_str() {
+        let family = if cfg.family == "crash-subsector" { "crash" } else { cfg.family.as_str() };
+        match family {
             "adversarial" => {
                 w.craft = 30;
                 w.act = 15;
